@@ -379,6 +379,37 @@ func HarnessC07a() {
 	reachNew, c2 := reachable(stNew, rNew)
 	verifAssert("C03.complete", c1 && c2)
 
+	if nf := verifBoundOr("FAULT", 0); nf > 0 && stNew == st {
+		// one transient Load failure at a symbolic position of the node diff: if the diff nevertheless
+		// reports success, what it reported must still be complete (a replica acts on it)
+		at := verifChoose("faultat", nf)
+		n, on := 0, true
+		st.failLoad = func(_ int, _ string) bool {
+			if !on {
+				return false
+			}
+			n++
+			return n-1 == at
+		}
+		fa, fr, ferr, _ := linkNames(nw, old)
+		on = false
+		st.failLoad = nil
+		if ferr == nil && n > at {
+			verifNote("diff-succeeded-under-a-load-fault")
+			cov := true
+			for _, x := range reachNew {
+				cov = verifAnd(cov, verifOr(memberTerm(x, reachOld), memberTerm(x, fa)))
+			}
+			verifAssert("C07.fault.added-covers-new-only-nodes", cov)
+			cov = true
+			for _, x := range reachOld {
+				cov = verifAnd(cov, verifOr(memberTerm(x, reachNew), memberTerm(x, fr)))
+			}
+			verifAssert("C07.fault.removed-covers-old-only-nodes", cov)
+			verifAssert("C07.fault.added-once", distinctTerm(fa))
+			verifAssert("C07.fault.removed-once", distinctTerm(fr))
+		}
+	}
 	l0, l0n := len(st.loadLog), len(stNew.loadLog)
 	added, removed, err, allStr := linkNames(nw, old)
 	difflinksLoads := append([]string{}, st.loadLog[l0:]...)
